@@ -1,14 +1,14 @@
 SPECIFICATION Spec
-CONSTANTS MaxLen = 3
-  Pool <- Pool3
-  Starts <- StartsAll
-  Xs = {1, 2}
+CONSTANTS MaxLen = 2
+  Pool <- PoolReserved
+  Starts <- StartsA
+  Xs = {2}
   Nested = FALSE
   Ys <- NoData
   Extra <- NoElems
   Variant = "doc"
   CopyVarContext = TRUE
-  ExtendByCompose = FALSE
+  ExtendByCompose = TRUE
   PathKeys = FALSE
-INVARIANT ComposeEqSeq
+INVARIANT TypedDeclarative
 CHECK_DEADLOCK FALSE
